@@ -32,8 +32,34 @@ def prep(rng):
     return dict(code=rng.choice(CODES))
 
 
+PC_FAMILY = ('ldm', 'pop', 'ls', 'dp', 'ldm_eret')
+
+
+def pc_operand(row, rng):
+    """pin the destination to the PC: register list with bit 15 (or the P bit of the 16-bit POP), Rt = 15, Rd = 15"""
+    f = row.fields
+    name = row.name
+    if name.startswith(('str', 'stm', 'push', 'pld', 'pli')) or 'strex' in name:
+        return None
+    if 'r' in f and len(f['r']) in (15, 16):
+        return {'r': (lockstep_reglist(rng, len(f['r'])) | (1 << 15)) & ((1 << len(f['r'])) - 1)} if len(f['r']) == 16 else None
+    if 'P' in f and len(f['P']) == 1 and name.startswith('pop'):
+        return {'P': 1}
+    if row.sem and row.sem.startswith('ls') and 't' in f and len(f['t']) == 4:
+        return {'t': 15}
+    if row.sem and row.sem.startswith('dp') and 'd' in f and len(f['d']) == 4:
+        return {'d': 15}
+    return None
+
+
+def lockstep_reglist(rng, k):
+    from vf import lockstep
+    return lockstep.reglist(rng, k)
+
+
 def plan(tier, seed):
     specs = L.plan_rows(ID, FAMILY, tier, seed, 900, 40000, 12, 48)
+    specs += [dict(s, kind='pcrows') for s in L.plan_rows(ID, PC_FAMILY, tier, seed, 60, 3000, 8, 32)]
     specs.append(dict(kind='enum', seed=seed, shard=0, reps=1 if tier == 'quick' else 40))
     return specs
 
@@ -45,6 +71,15 @@ def keyfn(key, info, diffs):
 def run_shard(spec):
     if spec['kind'] == 'enum':
         return enum(spec)
+    if spec['kind'] == 'pcrows':
+        # every load and data-processing encoding that can write the PC, with the PC as destination: target, interworking
+        # (bit 0 of the loaded / computed value), alignment, and where the PC word is read from
+        def after(ctx, rng, desc):
+            r = ctx.cpu.registers
+            if ctx.cfg['arch_version'] >= 7:
+                r.sctlr.u = 1
+        return L.run_rows(ID, dict(spec, kind='rows'), PC_FAMILY, regs_fn=lambda rng: [__import__('vf.scen', fromlist=['x']).reg_value(rng) for _ in range(15)],
+                          after=after, fixed_fn=pc_operand, solve_addr=0.1)
     return L.run_rows(ID, spec, FAMILY, regs_fn=regs, prep_kw=prep)
 
 
